@@ -1,6 +1,9 @@
 package coresim
 
 import (
+	"time"
+
+	vrt "github.com/AliceO2Group/Control/verif_vrt"
 	"github.com/AliceO2Group/Control/common/utils/uid"
 	"github.com/AliceO2Group/Control/core/integration"
 	"github.com/AliceO2Group/Control/core/workflow/callable"
@@ -11,6 +14,9 @@ var CallLog []string
 
 // CallFail makes sim.Call("<tag>") fail when CallFail[tag] is set.
 var CallFail = map[string]bool{}
+
+// CallDelay makes sim.Call("<tag>") take that much virtual time (a slow integrated service).
+var CallDelay = map[string]time.Duration{}
 
 type simPlugin struct{}
 
@@ -34,6 +40,9 @@ func (p *simPlugin) CallStack(data interface{}) map[string]interface{} {
 			CallLog = append(CallLog, tag+"@"+call.Traits.Trigger)
 			if OnPluginCall != nil {
 				OnPluginCall(tag, call.Traits.Trigger)
+			}
+			if d := CallDelay[tag]; d > 0 {
+				vrt.Sleep(d)
 			}
 			if CallFail[tag] {
 				call.VarStack["__call_error"] = "sim call " + tag + " failed"
